@@ -20,7 +20,7 @@ func init() {
 // value (if any) and the fields the value derives from.
 type fieldAssign struct {
 	fn      *ssa.Function
-	instr   *ssa.Store
+	instr   ssa.Instruction
 	target  FieldPath
 	helper  *ssa.Function
 	sources []FieldPath
@@ -53,8 +53,78 @@ func collectAssigns(w *World, pr *prover, fns []*ssa.Function) []fieldAssign {
 				out = append(out, a)
 			}
 		}
+		// h(&x.A, &x.B, …) where h maps every pointed-to value through one function (for _, p := range ps { *p = G(*p) })
+		// assigns each of those fields from G applied to itself
+		for _, call := range callsIn(f) {
+			h := call.Common().StaticCallee()
+			if h == nil || !w.InPkg(h) || h.Blocks == nil || len(call.Common().Args) == 0 {
+				continue
+			}
+			for ai, arg := range call.Common().Args {
+				elems, ok := variadicElems(arg)
+				if !ok || len(elems) == 0 || ai >= len(h.Params) {
+					continue
+				}
+				g := mapsPointeesThrough(h, h.Params[ai])
+				if g == nil {
+					continue
+				}
+				for _, e := range elems {
+					fa, ok := e.(*ssa.FieldAddr)
+					if !ok {
+						continue
+					}
+					fp, ok := pr.structPath(fa, 0)
+					if !ok || len(fp.Idx) == 0 || fp.RootType.Obj().Pkg() != w.Types {
+						continue
+					}
+					out = append(out, fieldAssign{fn: f, instr: call, target: fp, helper: g, sources: []FieldPath{fp}, guards: pr.dominatingGuards(call.Block())})
+				}
+			}
+		}
 	}
 	return out
+}
+
+// mapsPointeesThrough: h ranges over its slice-of-pointers parameter ps and does `*p = G(*p)` for every element, and
+// stores nothing else through the elements; returns G.
+func mapsPointeesThrough(h *ssa.Function, ps *ssa.Parameter) *ssa.Function {
+	var g *ssa.Function
+	isElem := func(v ssa.Value) bool { // load of &ps[i]
+		u, ok := v.(*ssa.UnOp)
+		if !ok || u.Op != token.MUL {
+			return false
+		}
+		ia, ok := u.X.(*ssa.IndexAddr)
+		return ok && ia.X == ssa.Value(ps)
+	}
+	for _, b := range h.Blocks {
+		for _, in := range b.Instrs {
+			st, ok := in.(*ssa.Store)
+			if !ok {
+				continue
+			}
+			if !isElem(st.Addr) {
+				if _, isLocal := st.Addr.(*ssa.Alloc); isLocal {
+					continue
+				}
+				return nil
+			}
+			call, ok := unwrap(st.Val).(*ssa.Call)
+			if !ok || call.Common().StaticCallee() == nil || len(call.Common().Args) != 1 {
+				return nil
+			}
+			ld, ok := unwrap(call.Common().Args[0]).(*ssa.UnOp)
+			if !ok || ld.Op != token.MUL || ld.X != st.Addr {
+				return nil
+			}
+			if g != nil && g != call.Common().StaticCallee() {
+				return nil
+			}
+			g = call.Common().StaticCallee()
+		}
+	}
+	return g
 }
 
 var c16Single = []string{"Actor", "Target", "Result", "Origin", "Instrument", "Object", "AttributedTo", "Replies", "Likes", "Shares"}
@@ -339,12 +409,25 @@ func checkC18(w *World, c *Check, tier string) {
 	run("from-typed-nil", obj, typedNil, nil)
 	// id mismatch: force the result of the id equivalence test to false
 	var idCalls, typeCalls []*ssa.Call
-	for _, call := range callsIn(copyItem) {
-		if cal := call.Common().StaticCallee(); cal != nil && cal.Name() == "Equals" && namedOf(cal.Signature.Recv().Type()) == w.Named("IRI") {
-			idCalls = append(idCalls, call)
-		}
-		if call.Common().IsInvoke() && call.Common().Method.Name() == "GetType" {
-			typeCalls = append(typeCalls, call)
+	// the guards may have been moved into a predicate (canCopy(to, from) error): look at everything CopyItemProperties
+	// reaches before the merge dispatcher
+	guardFns := w.Reach([]*ssa.Function{copyItem}, func(f *ssa.Function) bool {
+		return f != copyItem && (merges[f] || f == disp || f.Name() == "Equals" || f.Name() == "IsNil" || f.Name() == "GetLink" || f.Name() == "GetType" || strings.HasPrefix(f.Name(), "On") || strings.HasPrefix(f.Name(), "To"))
+	})
+	typeParamOf := map[*ssa.Call]int{}
+	for _, gf := range guardFns {
+		for _, call := range callsIn(gf) {
+			if cal := call.Common().StaticCallee(); cal != nil && cal.Name() == "Equals" && cal.Signature.Recv() != nil && namedOf(cal.Signature.Recv().Type()) == w.Named("IRI") {
+				idCalls = append(idCalls, call)
+			}
+			if call.Common().IsInvoke() && call.Common().Method.Name() == "GetType" {
+				typeCalls = append(typeCalls, call)
+				for pi, p := range gf.Params {
+					if unwrap(call.Common().Value) == ssa.Value(p) {
+						typeParamOf[call] = pi
+					}
+				}
+			}
 		}
 	}
 	if len(idCalls) == 0 {
@@ -366,7 +449,7 @@ func checkC18(w *World, c *Check, tier string) {
 			}
 			for _, tc := range typeCalls {
 				name := "Note"
-				if unwrap(tc.Common().Value) == ssa.Value(copyItem.Params[1]) {
+				if typeParamOf[tc] == 1 {
 					name = "Article"
 				}
 				ip.overrides[tc] = AV{K: kConst, C: constant.MakeString(name), T: avt}
@@ -488,8 +571,18 @@ func checkC18(w *World, c *Check, tier string) {
 			}
 			if a.helper != nil && w.InPkg(a.helper) && a.helper.Signature.Params().Len() == 2 {
 				if msg := replaceIfShape(w, pr, a.helper); msg != "" {
-					c.bad("C18.merge", key, w.InstrPos(a.instr), fmt.Sprintf("to.%s is merged through %s, %s", fname, a.helper.Name(), msg))
-					continue
+					listed := false
+					for _, l := range append(append([]string{"First", "Last", "Items", "OrderedItems", "PartOf", "Next", "Prev"}, c18Object...), c18Actor...) {
+						if l == fname {
+							listed = true
+						}
+					}
+					// a property the statement does not list as merged may keep the value `to` had (published, updated,
+					// totalItems): allowed as long as the helper hands back one of the two values and nothing else
+					if listed || !returnsOnlyItsParams(a.helper) {
+						c.bad("C18.merge", key, w.InstrPos(a.instr), fmt.Sprintf("to.%s is merged through %s, %s", fname, a.helper.Name(), msg))
+						continue
+					}
 				}
 			}
 			coveredBy[funcName(mf)][fname] = true
@@ -561,6 +654,18 @@ func replaceIfShape(w *World, pr *prover, h *ssa.Function) string {
 					okG = true
 				}
 			}
+			// x.IsZero() / IsNil(x) on the parameter itself (a time.Time or item passed by value has no field path)
+			for _, g := range rawGuards(rb) {
+				if call, ok := g.cond.(*ssa.Call); ok && g.onTrue {
+					name := ""
+					if cal := call.Common().StaticCallee(); cal != nil {
+						name = cal.Name()
+					}
+					if (name == "IsZero" || name == "IsNil") && len(call.Common().Args) >= 1 && paramValue(call.Common().Args[0], newP) {
+						okG = true
+					}
+				}
+			}
 			if !okG {
 				return "which returns the old value on a path where the new one is not known to be unset"
 			}
@@ -586,6 +691,43 @@ func replaceIfShape(w *World, pr *prover, h *ssa.Function) string {
 		}
 	}
 	return ""
+}
+
+// paramValue: v is the parameter, or a load of the local cell the parameter was spilled to (method call on a value).
+func paramValue(v ssa.Value, p *ssa.Parameter) bool {
+	v = unwrap(v)
+	if v == ssa.Value(p) {
+		return true
+	}
+	if u, ok := v.(*ssa.UnOp); ok {
+		if a, ok := u.X.(*ssa.Alloc); ok {
+			st := storesTo(a)
+			return len(st) == 1 && st[0].Val == ssa.Value(p)
+		}
+	}
+	if a, ok := v.(*ssa.Alloc); ok { // address of the spilled parameter (pointer-receiver method on a value)
+		st := storesTo(a)
+		return len(st) == 1 && st[0].Val == ssa.Value(p)
+	}
+	return false
+}
+
+// returnsOnlyItsParams: every return of the two-parameter helper is one of its parameters (the value it had or the
+// value the update carries — never something else).
+func returnsOnlyItsParams(h *ssa.Function) bool {
+	if len(h.Params) != 2 {
+		return false
+	}
+	for _, rb := range returnBlocks(h) {
+		ret := rb.Instrs[len(rb.Instrs)-1].(*ssa.Return)
+		if len(ret.Results) != 1 {
+			return false
+		}
+		if !paramValue(ret.Results[0], h.Params[0]) && !paramValue(ret.Results[0], h.Params[1]) {
+			return false
+		}
+	}
+	return true
 }
 
 func structLoadOf(v ssa.Value, p *ssa.Parameter) bool {
